@@ -317,7 +317,8 @@ func TestC03(t *testing.T) {
 		}
 		// (iii) an unterminated last token: ill-formed by construction
 		base := strings.TrimRight(gen.Render(p.Stream, gen.Canonical{}).Src, "\n")
-		tail := rapid.SampledFrom([]string{"'abc", `"abc`, "${x", "${x:-", "$(a", "`a", "$((1", "((1", "<<E", "<<E\nbody"}).Draw(rt, "tail")
+		tail := rapid.SampledFrom([]string{"'abc", `"abc`, "${x", "${x:-", "$(a", "`a", "$((1", "((1", "<<E", "<<E\nbody",
+			"<<A <<B\nx\nA", "<<A <<B\nx\nA\n", "<<A <<B\nA\nB x\n", "<<-A <<B\n\tA\nb", "<<'A' <<B\n$x\nA\n$(", "<<A\n${x", "<<A\n$(a", "<<A\n`a\nA\n"}).Draw(rt, "tail")
 		lastTop := p.Stream.Toks[len(p.Stream.Toks)-1]
 		if lastTop.Kind == gen.KNewline && len(p.Stream.Toks) > 1 {
 			lastTop = p.Stream.Toks[len(p.Stream.Toks)-2]
